@@ -1,3 +1,4 @@
 //! Reference models, written from the RFC text, independent of `pgp::` parsing/serialisation.
 pub mod armor;
 pub mod canon;
+pub mod csf;
